@@ -10,8 +10,9 @@ import traceback
 
 VERIF_DIR = os.path.dirname(os.path.dirname(os.path.abspath(__file__)))
 REPO = os.path.abspath(os.environ.get("VERIF_REPO", "/repo"))
-EVIDENCE_DIR = os.path.join(VERIF_DIR, "evidence")
-REPLAY_DIR = os.path.join(VERIF_DIR, "replays")
+_OUT = os.environ.get("VF_OUT_DIR") or VERIF_DIR  # VF_OUT_DIR: scratch runs against mutants
+EVIDENCE_DIR = os.path.join(_OUT, "evidence")
+REPLAY_DIR = os.path.join(_OUT, "replays")
 KNOWN_FILE = os.path.join(VERIF_DIR, "KNOWN_FINDINGS.txt")
 NPROC = int(os.environ.get("VF_NPROC", str(min(16, os.cpu_count() or 1))))
 
